@@ -30,10 +30,67 @@ def _with_blocks(fa: FA, pred):
     return [w for w in fa.stmts((ast.With,)) if any(pred(i.context_expr) for i in w.items)]
 
 
+def _calls_under_lock(ck, fi, method_name, me_name, _depth=0):
+    """In function `fi`: is every call `<method_name>(<me_name>, ...)` made while `<me_name>.<lock>` is held -- inside a
+    with-block of it (named directly or through a local), between `acquire()` and a `release()` that every way out passes,
+    or by handing method and instance on to a module-level helper that does the same with its own parameters?
+    -> (set of lock fields, does `fi` hand the method's result on?) or None when some call is not under a lock / there is none."""
+    w = FA(ck, fi)
+    me = me_name
+    calls = [c for c in w.calls() if isinstance(c.func, ast.Name) and c.func.id == method_name and c.args and A.norm(c.args[0]) == me]
+    delegs = []
+    if _depth < 2:
+        for c in w.calls():
+            if isinstance(c.func, ast.Name) and c.func.id in fi.module.functions and c.func.id != fi.name and c not in calls:
+                pm_ = [i for i, a in enumerate(c.args) if isinstance(a, ast.Name) and a.id == method_name]
+                ps_ = [i for i, a in enumerate(c.args) if isinstance(a, ast.Name) and a.id == me]
+                g = fi.module.functions[c.func.id]
+                if len(pm_) == 1 and len(ps_) == 1 and not c.keywords and len(g.params) > max(pm_[0], ps_[0]):
+                    delegs.append((c, g, pm_[0], ps_[0]))
+    if not calls and not delegs:
+        return None
+    locks = set()
+    for c in calls:
+        held = None
+        x = c
+        while x is not None:
+            x = w.pm.get(x)
+            if isinstance(x, ast.With):
+                for it in x.items:
+                    e = safe_expand(w, it.context_expr, x)
+                    if isinstance(e, ast.Attribute) and isinstance(e.value, ast.Name) and e.value.id == me:
+                        held = e.attr
+            if held:
+                break
+        if held is None:
+            # no with-block: the lock may be taken by hand (`me.<lock>.acquire()` ... `finally: me.<lock>.release()`)
+            for x in w.calls("acquire"):
+                r = A.call_recv(x)
+                if isinstance(r, ast.Name):
+                    r = safe_expand(w, r)
+                if isinstance(r, ast.Attribute) and isinstance(r.value, ast.Name) and r.value.id == me:
+                    lr = LockRegions(ck, fi, r.attr, me=me)
+                    if lr.held(c) and not lr.leaks():
+                        held = r.attr
+        if held is None:
+            return None
+        locks.add(held)
+    hands_on_calls = list(calls)
+    for (c, g, im, is_) in delegs:
+        sub = _calls_under_lock(ck, g, g.params[im], g.params[is_], _depth + 1)
+        if sub is None:
+            return None
+        locks |= sub[0]
+        if sub[1]:
+            hands_on_calls.append(c)
+    # the method's result is handed on (returned from inside the block, or kept in a variable and returned after it)
+    hands_on = any(r.value is not None and any(v_ in hands_on_calls for (v_, _at) in _sources(w, r)) for r in w.returns())
+    return locks, hands_on
+
+
 def _lock_decorators(ck, module):
-    """Module-level decorators whose wrapper calls the decorated method only inside `with self.<lock>:` (the lock named
-    directly or through a local), whatever else the wrapper does with the result (return it from inside the block, or
-    keep it in a variable and return it after the block).  -> {decorator name: lock field}"""
+    """Module-level decorators whose wrapper calls the decorated method only while holding `self.<lock>` (see
+    _calls_under_lock), whatever else the wrapper does with the result.  -> {decorator name: lock field}"""
     out = {}
     for name, fi in module.functions.items():
         if len(fi.params) != 1:
@@ -46,44 +103,9 @@ def _lock_decorators(ck, module):
         wfi = fi.nested.get(inner[0].name)
         if wfi is None or not wfi.params:
             continue
-        w = FA(ck, wfi)
-        me = wfi.params[0]
-        calls = [c for c in w.calls() if isinstance(c.func, ast.Name) and c.func.id == fi.params[0] and c.args and A.norm(c.args[0]) == me]
-        if not calls:
-            continue
-        locks = set()
-        ok = True
-        for c in calls:
-            held = None
-            x = c
-            while x is not None:
-                x = w.pm.get(x)
-                if isinstance(x, ast.With):
-                    for it in x.items:
-                        e = safe_expand(w, it.context_expr, x)
-                        if isinstance(e, ast.Attribute) and isinstance(e.value, ast.Name) and e.value.id == me:
-                            held = e.attr
-                if held:
-                    break
-            if held is None:
-                # no with-block: the lock may be taken by hand (`me.<lock>.acquire()` ... `finally: me.<lock>.release()`)
-                for x in w.calls("acquire"):
-                    r = A.call_recv(x)
-                    if isinstance(r, ast.Name):
-                        r = safe_expand(w, r)
-                    if isinstance(r, ast.Attribute) and isinstance(r.value, ast.Name) and r.value.id == me:
-                        lr = LockRegions(ck, wfi, r.attr, me=me)
-                        if lr.held(c) and not lr.leaks():
-                            held = r.attr
-            if held is None:
-                ok = False
-            else:
-                locks.add(held)
-        # the wrapper hands the method's result on
-        hands_on = any(r.value is not None and any(isinstance(v_, ast.Call) and isinstance(v_.func, ast.Name) and v_.func.id == fi.params[0]
-                                                   for (v_, _at) in _sources(w, r)) for r in w.returns())
-        if ok and len(locks) == 1 and hands_on:
-            out[name] = next(iter(locks))
+        res = _calls_under_lock(ck, wfi, fi.params[0], wfi.params[0])
+        if res is not None and len(res[0]) == 1 and res[1]:
+            out[name] = next(iter(res[0]))
     return out
 
 
@@ -127,17 +149,23 @@ class LockRegions:
     `self.<lock>.release()` has undone.  `acquire(); try: ... finally: release()`, a with-block and the lock-holding
     decorator are thereby the same thing to the rules."""
 
-    def __init__(self, ck, m, lock, lock_cms=(), me="self"):
+    def __init__(self, ck, m, lock, lock_cms=(), me="self", is_lock=None):
+        """`lock`: the lock is the field `<me>.<lock>`; or `is_lock`: a predicate on expressions saying "this designates the
+        lock" (a module-level lock, the per-call mutex of an invocation, ...), asked for the expression as written and,
+        for a local, for what it was assigned."""
         self.m, self.lock, self.lock_cms, self.me = m, lock, set(lock_cms), me
+        self.lock_pred = is_lock
         self.fa = fa = FA(ck, m, exc_mode="all")
         cfg = fa.cfg
-        self.withs = [w for w in fa.stmts((ast.With,)) if lock and any(self.is_lock_item(i.context_expr) for i in w.items)]
+        lock = lock or is_lock
+        self.stack_acquires = set()
+        self.withs = [w for w in fa.stmts((ast.With,)) if lock and (any(self.is_lock_item(i.context_expr) for i in w.items) or self._exit_stack_holds(w))]
         self.acquires, self.releases = [], []
         for n in cfg.nodes:
             if n.ast is None or n.kind not in ("stmt", "test", "for", "with"):
                 continue
             for c in self._own_calls(n):
-                if lock and isinstance(c.func, ast.Attribute) and self._is_lock(c.func.value):
+                if lock and isinstance(c.func, ast.Attribute) and c.func.attr in ("acquire", "release") and self._is_lock(c.func.value):
                     if c.func.attr == "release":
                         self.releases.append(n.id)
                     elif c.func.attr == "acquire" and n.kind == "stmt" and isinstance(n.ast, ast.Expr) and n.ast.value is c and not c.args \
@@ -147,9 +175,43 @@ class LockRegions:
         self.held_in = self._solve()
 
     def _is_lock(self, e) -> bool:
+        if self.lock_pred is not None:
+            if self.lock_pred(e):
+                return True
+            if isinstance(e, ast.Name):
+                x = safe_expand(self.fa, e)
+                return x is not e and bool(self.lock_pred(x))
+            return False
         if isinstance(e, ast.Name):
             e = safe_expand(self.fa, e)  # `lk = self._lock` ... `lk.acquire()`
         return isinstance(e, ast.Attribute) and e.attr == self.lock and isinstance(e.value, ast.Name) and e.value.id == self.me
+
+    def _exit_stack_holds(self, w) -> bool:
+        """`with ExitStack() as s:` whose body starts by handing the lock to the stack -- `s.enter_context(<lock>)`, or
+        `<lock>.acquire()` followed by `s.callback(<lock>.release)` -- holds the lock from there to the end of the block,
+        exactly like `with <lock>:`."""
+        stacks = [i.optional_vars.id for i in w.items if isinstance(i.context_expr, ast.Call) and A.call_attr(i.context_expr) == "ExitStack"
+                  and isinstance(i.optional_vars, ast.Name)]
+        body = A.sig_stmts(w.body)
+        if not stacks or not body:
+            return False
+
+        def stack_call(st, name):
+            if isinstance(st, ast.Expr) and isinstance(st.value, ast.Call) and A.call_attr(st.value) == name \
+                    and isinstance(A.call_recv(st.value), ast.Name) and A.call_recv(st.value).id in stacks and len(st.value.args) == 1:
+                return st.value.args[0]
+            return None
+
+        a0 = stack_call(body[0], "enter_context")
+        if a0 is not None and self._is_lock(a0):
+            return True
+        if len(body) >= 2 and isinstance(body[0], ast.Expr) and isinstance(body[0].value, ast.Call) and A.call_attr(body[0].value) == "acquire" \
+                and not body[0].value.args and not body[0].value.keywords and self._is_lock(A.call_recv(body[0].value)):
+            cb = stack_call(body[1], "callback")
+            if isinstance(cb, ast.Attribute) and cb.attr == "release" and self._is_lock(cb.value):
+                self.stack_acquires.add(id(body[0]))
+                return True
+        return False
 
     def _own_calls(self, n):
         if n.kind == "for":
@@ -256,7 +318,7 @@ class LockRegions:
         cfg = self.fa.cfg
         bad = []
         for a in self.acquires:
-            if a not in cfg.reachable_nodes():
+            if a not in cfg.reachable_nodes() or id(cfg.node(a).ast) in self.stack_acquires:
                 continue
             starts = [d for (d, l) in cfg.succ[a] if l != "exc"]
             r = cfg.reach(starts, removed=set(self.releases))
@@ -488,19 +550,21 @@ def check(ck):
     mod = ck.repo.module(RL)
     # ---- R1
     table, table_lock, table_kind = mutex_table(ck, mod)
+    def is_table_lock(e):
+        return isinstance(e, ast.Name) and e.id == table_lock
+
+    table_regions = {}
     for fi in mod.all_funcs():
         fa = FA(ck, fi)
-        for n in A.walk_body(fi.node):
-            if isinstance(n, ast.Name) and n.id == table:
-                w = n
-                inside = False
-                while w is not None:
-                    w = fa.pm.get(w)
-                    if isinstance(w, ast.With) and any(A.norm(i.context_expr) == table_lock for i in w.items):
-                        inside = True
-                        break
-                ck.ob(R1, fa.key(n, "table-access"), inside, "mutex table accessed under %s" % table_lock if inside else
-                      "the mutex table (a defaultdict) is accessed without holding %s" % table_lock, fa.where(n))
+        uses = [n for n in A.walk_body(fi.node) if isinstance(n, ast.Name) and n.id == table]
+        if not uses:
+            continue
+        # held on the CFG: `with LOCK:`, `LOCK.acquire()` ... `finally: LOCK.release()`, an ExitStack that entered it
+        lr = table_regions[fi.qual] = LockRegions(ck, fi, None, is_lock=is_table_lock)
+        for n in uses:
+            inside = lr.held(n) and not lr.leaks()
+            ck.ob(R1, fa.key(n, "table-access"), inside, "mutex table accessed under %s" % table_lock if inside else
+                  "the mutex table (a defaultdict) is accessed without holding %s" % table_lock, fa.where(n))
     ck.run(check_mutex_table_stable, ck, R2)
     # ---- R2
     ck.ob(R2, RL + "::mutex-reentrant", table_kind == "RLock", "per-call mutexes are re-entrant (RLock)" if table_kind == "RLock" else
@@ -547,7 +611,7 @@ def check(ck):
             x0 = safe_expand(rl, e)
             if not isinstance(x0, ast.Name):
                 return holds_own_mutex(x0)
-        if isinstance(e, ast.Call) and A.call_attr(e) in holders and [A.norm(a) for a in e.args] == [inv]:
+        if isinstance(e, ast.Call) and A.call_attr(e) in holders and [_xs(rl, a, e) for a in e.args] == [inv]:
             return True
         if not helper_exists:
             # `m = TABLE[(qualified name, arg hash)]` under the table lock, then `with m:`
@@ -559,15 +623,18 @@ def check(ck):
         if isinstance(e, ast.Call) and A.call_attr(e) in mutex_wrappers and len(e.args) == 1:
             return holds_own_mutex(e.args[0])
         return False
-    ws = _with_blocks(rl, holds_own_mutex)
-    if len(ws) != 1:
+    # where the per-call mutex is held, on the CFG: a with-block, `m.acquire()` ... `finally: m.release()`, an ExitStack that
+    # entered it, or a lock-holding context manager -- one critical section, given back on every way out
+    section = LockRegions(ck, rl.fi, None, is_lock=holds_own_mutex)
+    if len(section.sections()) != 1 or section.leaks():
         ck.ob(R2, rl.key(None, "critical-section"), False, "memento_run_local does not hold the per-call mutex of its own invocation", rl.where())
     else:
-        w = ws[0]
-        for (name, recv) in (("get_memento", "storage_backend"), ("_filter_call", None), ("is_memoized", "storage_backend"), ("memoize", "storage_backend"),
+        # the storage backend is the third parameter (named directly or through a local)
+        backend = rl.fi.params[2] if len(rl.fi.params) > 2 else "storage_backend"
+        for (name, recv) in (("get_memento", backend), ("_filter_call", None), ("is_memoized", backend), ("memoize", backend),
                              ("process_existing_memento", None)):
-            cs = [c for c in rl.calls(name) if recv is None or A.dotted(A.call_recv(c)) == recv]
-            ok = bool(cs) and all(rl.inside(c, w) for c in cs)
+            cs = [c for c in rl.calls(name) if recv is None or (A.call_recv(c) is not None and _xs(rl, A.call_recv(c), c) == recv)]
+            ok = bool(cs) and all(section.held(c) for c in cs)
             ck.ob(R2, rl.key(None, "in-section-" + name), ok, "%s happens inside the per-call critical section" % name if ok else
                   ("%s is not called at all" % name if not cs else
                    "%s happens outside the per-call critical section: two threads can both miss and both run the body" % name), rl.where(cs[0] if cs else None))
@@ -588,11 +655,32 @@ def check(ck):
     # ---- R4
     bad = []
     for fi in mod.all_funcs():
+        if not any(isinstance(n, ast.Name) and n.id == table_lock for n in A.walk_body(fi.node)):
+            continue
         fa = FA(ck, fi)
-        for w in _with_blocks(fa, lambda e: A.norm(e) == table_lock):
-            for c in A.calls_in(w):
-                if A.call_attr(c) not in ("RLock", "Lock", "get", "setdefault"):
-                    bad.append((fi, c))
+        lr = table_regions.get(fi.qual) or LockRegions(ck, fi, None, is_lock=is_table_lock)
+        for c in fa.calls():
+            if A.call_attr(c) in ("RLock", "Lock", "get", "setdefault") or not lr.held(c):
+                continue
+            if A.call_attr(c) in ("acquire", "release", "__enter__", "__exit__") and lr._is_lock(A.call_recv(c)):
+                continue
+            if A.call_attr(c) in ("enter_context", "callback") and c.args and lr._is_lock(c.args[0].value if isinstance(c.args[0], ast.Attribute) and c.args[0].attr == "release" else c.args[0]):
+                continue
+            # what the call can reach: a resolved callee is followed through the call graph; an unresolved one is harmless only
+            # when it is logging / string formatting / a length or identity builtin
+            try:
+                callees, _how = ck.cg.resolve(c, fi)
+            except Exception:
+                callees = []
+            if callees:
+                reach = set(ck.cg.reachable(callees)) | {f_.qual for f_ in callees}
+                if not any(q.split(".")[-1] in FORBIDDEN_UNDER_LEAF_LOCK for q in reach):
+                    continue
+            else:
+                from ..fa import log_call
+                if log_call(c) or (isinstance(c.func, ast.Name) and c.func.id in ("len", "tuple", "isinstance", "id")):
+                    continue
+            bad.append((fi, c))
     ck.ob(R4, RL + "::table-lock-leaf", not bad, "no call is made while the table lock is held" if not bad else
           "call %s while holding the mutex table lock" % A.short(bad[0][1], 50), A.loc(bad[0][0], bad[0][1]) if bad else mod.relpath)
     roots = [m for n, m in cm.cls.methods.items() if n != "__init__"]
@@ -606,12 +694,32 @@ def check(ck):
     ck.ob(R5, "call_stack::thread-local", len(tl) == 1, "one threading.local() holds the call stack" if len(tl) == 1 else
           "call_stack no longer keeps its state in a threading.local()", cs.relpath)
     ctor_sites = ck.cg.call_sites_of(lambda c, cands: A.call_attr(c) == "CallStack" and isinstance(c.func, ast.Name))
+    stored_ctor = set()
     for (fi, c, _) in ctor_sites:
         fa = FA(ck, fi)
         st = fa.stmt_of(c)
-        # the new stack is bound to an attribute of the thread-local object (named directly or through a local alias)
-        ok = fi.qual == "call_stack.CallStack.get" and isinstance(st, ast.Assign) and tl and st.value is c and \
-            all(isinstance(t, ast.Attribute) and t.attr == "call_stack" and _xs(fa, t.value, st) == tl[0] for t in st.targets)
+
+        def tl_store(s2, value_ok):
+            """`<thread-local>.call_stack = <value>` (the thread-local object named directly or through a local alias)"""
+            return isinstance(s2, ast.Assign) and value_ok(s2.value) and \
+                any(isinstance(t, ast.Attribute) and t.attr == "call_stack" and tl and _xs(fa, t.value, s2) == tl[0] for t in s2.targets)
+
+        ok = False
+        if fi.qual == "call_stack.CallStack.get" and isinstance(st, ast.Assign) and st.value is c:
+            if tl_store(st, lambda v: v is c):
+                # the new stack is bound straight to an attribute of the thread-local object
+                ok = True
+            else:
+                # ... or to a local first: every way on from there stores that very local into the thread-local object
+                names = [t.id for t in st.targets if isinstance(t, ast.Name)]
+                for nm in names:
+                    stores = [s2 for s2 in fa.stmts(ast.Assign) if tl_store(s2, lambda v: isinstance(v, ast.Name) and v.id == nm)
+                              and all(len(fa.df.reaching(i, nm)) == 1 and fa.df.reaching(i, nm)[0].node in fa.nodes(st) for i in fa.nodes(s2))]
+                    sn = fa.nodes_all(stores)
+                    if stores and all(fa.cfg.exit not in fa.cfg.reach([i], removed=sn, include_start=False) for i in fa.nodes(st)):
+                        ok = True
+        if ok:
+            stored_ctor.add(id(c))
         ck.ob(R5, fa.key(c, "created-into-thread-local"), bool(ok), "a new CallStack goes straight into thread-local storage" if ok else
               "a CallStack is created outside CallStack.get / not stored in thread-local storage", fa.where(c))
     shared = []
@@ -630,7 +738,31 @@ def check(ck):
           "a call stack / frame container is shared across threads: %s" % (shared[0],), shared[0][0] if shared else cs.relpath)
     g = FA(ck, "call_stack.CallStack.get")
     rets = g.returns()
-    okg = bool(rets) and tl and all(r.value is not None and _xs(g, r.value, r) == tl[0] + ".call_stack" for r in rets)
+
+    def own_stack(v, at) -> bool:
+        """the value is the calling thread's stack: read from the thread-local object, or the stack just created and stored there"""
+        if not tl:
+            return False
+        try:
+            x = g.expand(v, at)
+        except AnalysisError:
+            x = v
+        if A.norm(x) == tl[0] + ".call_stack" or id(v) in stored_ctor:
+            return True
+        # getattr(<thread-local>, "call_stack" [, default]): the default only stands in until a new stack is stored
+        return isinstance(x, ast.Call) and isinstance(x.func, ast.Name) and x.func.id == "getattr" and len(x.args) >= 2 \
+            and A.norm(x.args[0]) == tl[0] and A.const_str(x.args[1]) == "call_stack"
+
+    def ret_ok(r):
+        if r.value is None:
+            return False
+        if not g.nodes(r):
+            # code the explicit-edge CFG cannot reach (a handler of a try body that cannot raise): judged on its text
+            return bool(tl) and _xs(g, r.value, r) == tl[0] + ".call_stack"
+        srcs = _sources(g, r)
+        return bool(srcs) and all(own_stack(v, at) for (v, at) in srcs)
+
+    okg = bool(rets) and tl and all(ret_ok(r) for r in rets)
     ck.ob(R5, g.key(None, "get-returns-thread-local"), bool(okg), "CallStack.get returns the calling thread's stack" if okg else
           "CallStack.get does not return the thread-local stack", g.where())
     ini = FA(ck, "call_stack.CallStack.__init__")
